@@ -12,7 +12,7 @@ from . import ex, cfg
 from .resume import lvpath, is_persistent
 
 ALLOC = ("lzma_alloc", "lzma_alloc_zero")
-FREE = ("lzma_free",)
+FREE = ("lzma_free", "lzma_index_end", "lzma_index_hash_end")
 
 
 def _is_prefix(p, q):
@@ -27,8 +27,10 @@ def _ptr_local(fn, name):
 
 
 # ---------------------------------------------------------------- (c) freed alias
-def freed_alias(fn):
-    """Plain-CFG may-dataflow.  Facts: ('alias', local, path) and ('dangling', path, line).
+def freed_alias(fn, call_clears=None):
+    """call_clears(call node) -> set of member names that the callee stores on every one of its paths (for callees
+    that receive the holder object): such a call clears the dangling fact of those members.
+    Plain-CFG may-dataflow.  Facts: ('alias', local, path) and ('dangling', path, line).
     Returns [(return line, path text, free line)]."""
     local_arrays = {v["n"] for v in fn.vars if "[" in v["ty"] and not v.get("param")}
     local_structs = {v["n"] for v in fn.vars if v.get("rec") and not v.get("param")}
@@ -47,6 +49,11 @@ def freed_alias(fn):
             return cur
         # calls first (arguments are evaluated before the enclosing assignment)
         for c in ex.calls(e, into_refs=False):
+            if call_clears is not None and c.get("fn") not in FREE:
+                flds = call_clears(c)
+                if flds:
+                    cur = {f for f in cur if not (f[0] == "dangling" and f[1] and f[1][-1][0] == "field"
+                                                   and f[1][-1][1] in flds)}
             if c.get("fn") in FREE and c["args"]:
                 a = ex.strip(c["args"][0])
                 ap = lvpath(a)
